@@ -288,8 +288,11 @@ pub fn rewrite_case(g: G) -> BoxedStrategy<RewriteCase> {
         cfg,
         prop::collection::vec(any::<u8>(), 1..40),
         prop_oneof![2 => Just(vec![]), 1 => prop::collection::vec(any::<u8>(), 1..12)],
+        prop::bool::weighted(0.3),
     )
-        .prop_map(|(mut doc, width, cfg, choices, spans)| {
+        .prop_map(|(mut doc, width, mut cfg, choices, spans, doc_css)| {
+            // style attributes (on white-space-free elements only) take effect
+            cfg.doc_css = cfg.doc_css || doc_css;
             // KF-C13-invisible-block: runs without visible content are outside the searched domain
             gen::ensure_runs_visible(&mut doc.blocks);
             RewriteCase { doc, width, cfg, choices, spans }
@@ -298,7 +301,7 @@ pub fn rewrite_case(g: G) -> BoxedStrategy<RewriteCase> {
 }
 
 pub fn property() -> Property {
-    let mut g = G::default().no_tables().depth(2);
+    let mut g = G::default().no_tables().depth(2).with_digit_sup();
     g.pre = false;
     Property {
         id: "C13",
